@@ -220,10 +220,11 @@ func (t *stdioClientTransport) sendRequest(ctx context.Context, req *JSONRPCRequ
 
 	// Clean up on exit.
 	defer func() {
+		// The entry is only removed here; the channel is closed by close() alone (closing it in
+		// both places panicked with "close of closed channel" when Close raced with a call).
 		t.pendingMutex.Lock()
 		delete(t.pendingRequests, reqID)
 		t.pendingMutex.Unlock()
-		close(respChan)
 	}()
 
 	// Send request.
@@ -237,7 +238,11 @@ func (t *stdioClientTransport) sendRequest(ctx context.Context, req *JSONRPCRequ
 
 	// Wait for response or timeout.
 	select {
-	case resp := <-respChan:
+	case resp, ok := <-respChan:
+		if !ok {
+			// close() closed the channel: the transport is gone, there is no answer.
+			return nil, fmt.Errorf("transport closed")
+		}
 		return resp, nil
 	case <-ctx.Done():
 		return nil, ctx.Err()
@@ -368,9 +373,11 @@ func (t *stdioClientTransport) handleResponse(rawMessage json.RawMessage) {
 		return
 	}
 
+	// Hold the read lock until the answer has been handed over: close() closes the pending
+	// channels under the write lock, and a send on a closed channel would panic.
 	t.pendingMutex.RLock()
+	defer t.pendingMutex.RUnlock()
 	respChan, exists := t.pendingRequests[reqID]
-	t.pendingMutex.RUnlock()
 
 	if !exists {
 		t.logger.Warnf("No pending request for ID: %d", reqID)
@@ -426,9 +433,10 @@ func (t *stdioClientTransport) handleErrorResponse(rawMessage json.RawMessage) {
 		return
 	}
 
+	// See handleResponse: the send below must not race with close() closing the channel.
 	t.pendingMutex.RLock()
+	defer t.pendingMutex.RUnlock()
 	respChan, exists := t.pendingRequests[reqID]
-	t.pendingMutex.RUnlock()
 
 	if !exists {
 		t.logger.Warnf("No pending request for error ID: %d", reqID)
